@@ -14,9 +14,11 @@ import (
 	"fmt"
 	"os"
 	"os/exec"
+	"runtime"
 	"sort"
 	"strings"
 	"sync"
+	"sync/atomic"
 	"time"
 
 	"go.opentelemetry.io/otel/exporters/stdout/stdoutlog"
@@ -68,7 +70,17 @@ type obsJ struct {
 	Wrote  bool    `json:"wrote"`
 }
 
+type roundJ struct {
+	PShut        []int    `json:"pshut"`
+	XShut        []int    `json:"xshut"`
+	ShutErrs     []string `json:"shut_errs"`
+	FlushErrs    []string `json:"flush_errs"`
+	CollectAfter []string `json:"collect_after,omitempty"`
+	Count        int      `json:"count"`
+}
+
 type resultJ struct {
+	Rounds    []roundJ `json:"rounds,omitempty"`
 	Obs       []obsJ `json:"obs"`
 	Panic     string `json:"panic,omitempty"`
 	Shutdowns []int  `json:"shutdowns,omitempty"`
@@ -516,6 +528,184 @@ func childStorm(sc scenario) resultJ {
 	return res
 }
 
+func buildLog(kinds []string, rec *recorder, out *syncBuf) *sdklog.LoggerProvider {
+	var opts []sdklog.LoggerProviderOption
+	for i, k := range kinds {
+		var exp sdklog.Exporter
+		if strings.HasSuffix(k, "XStd") {
+			e, _ := stdoutlog.New(stdoutlog.WithWriter(out))
+			exp = &countLogExp{i, e, rec}
+		}
+		var inner sdklog.Processor
+		if strings.HasPrefix(k, "LSimple") {
+			inner = sdklog.NewSimpleProcessor(exp)
+		} else {
+			inner = sdklog.NewBatchProcessor(exp, sdklog.WithExportInterval(time.Hour), sdklog.WithExportTimeout(time.Minute))
+		}
+		opts = append(opts, sdklog.WithProcessor(&countLogProc{i, inner, rec}))
+	}
+	return sdklog.NewLoggerProvider(opts...)
+}
+
+func buildMetric(kinds []string, rec *recorder, out *syncBuf) (*sdkmetric.MeterProvider, []sdkmetric.Reader) {
+	var readers []sdkmetric.Reader
+	var opts []sdkmetric.Option
+	for i, k := range kinds {
+		var r sdkmetric.Reader
+		switch k {
+		case "RManual":
+			r = sdkmetric.NewManualReader()
+		case "RPeriodic XStd":
+			e, _ := stdoutmetric.New(stdoutmetric.WithWriter(out))
+			r = sdkmetric.NewPeriodicReader(&countMetricExp{i, e, rec}, sdkmetric.WithInterval(time.Hour), sdkmetric.WithTimeout(time.Minute))
+		default: // RPeriodic XNil
+			r = sdkmetric.NewPeriodicReader(nil, sdkmetric.WithInterval(time.Hour), sdkmetric.WithTimeout(time.Minute))
+		}
+		readers = append(readers, r)
+		opts = append(opts, sdkmetric.WithReader(r))
+	}
+	return sdkmetric.NewMeterProvider(opts...), readers
+}
+
+// spinBarrier releases all callers at (nearly) the same instant; it yields now and then so
+// that an oversubscribed machine only makes it slower.
+func spinWait(start *atomic.Bool) {
+	for n := 0; !start.Load(); n++ {
+		if n&255 == 255 {
+			runtime.Gosched()
+		}
+	}
+}
+
+// childLMStorm: rounds of 2..G callers of Shutdown / ForceFlush released at once on a fresh
+// LoggerProvider (log = true) or MeterProvider. The callers are persistent goroutines spinning on a
+// round counter (yielding now and then), so that a release reaches all of them within a cache miss;
+// identical round outcomes are merged.
+func childLMStorm(sc scenario, log bool) resultJ {
+	r := vgen.NewRand(sc.Seed)
+	merged := map[string]*roundJ{}
+	var order []string
+	type job struct {
+		lp         *sdklog.LoggerProvider
+		mp         *sdkmetric.MeterProvider
+		isShutdown []bool
+		errs       []string
+	}
+	var cur atomic.Pointer[job]
+	var round, done atomic.Int64
+	var stop atomic.Bool
+	var wg sync.WaitGroup
+	for g := 0; g < sc.G; g++ {
+		wg.Add(1)
+		go func(g int) {
+			defer wg.Done()
+			last := int64(0)
+			for n := 0; ; n++ {
+				now := round.Load()
+				if now == last {
+					if stop.Load() {
+						return
+					}
+					if n&1023 == 1023 {
+						runtime.Gosched()
+					}
+					continue
+				}
+				last = now
+				j := cur.Load()
+				if g < len(j.isShutdown) {
+					var err error
+					switch {
+					case j.lp != nil && j.isShutdown[g]:
+						err = j.lp.Shutdown(context.Background())
+					case j.lp != nil:
+						err = j.lp.ForceFlush(context.Background())
+					case j.isShutdown[g]:
+						err = j.mp.Shutdown(context.Background())
+					default:
+						err = j.mp.ForceFlush(context.Background())
+					}
+					j.errs[g] = errClass(err)
+				}
+				done.Add(1)
+			}
+		}(g)
+	}
+	for rn := 0; rn < sc.N; rn++ {
+		rec := &recorder{}
+		out := &syncBuf{}
+		G := r.Range(2, sc.G)
+		j := &job{isShutdown: make([]bool, G), errs: make([]string, G)}
+		for g := range j.isShutdown {
+			j.isShutdown[g] = g < 2 || r.Chance(3, 4)
+		}
+		var readers []sdkmetric.Reader
+		if log {
+			j.lp = buildLog(sc.Kinds, rec, out)
+			l := j.lp.Logger("storm")
+			var lr otellog.Record
+			lr.SetBody(otellog.StringValue("x"))
+			for i := 0; i < r.Intn(3); i++ {
+				l.Emit(context.Background(), lr)
+			}
+		} else {
+			j.mp, readers = buildMetric(sc.Kinds, rec, out)
+			c, _ := j.mp.Meter("storm").Int64Counter("c")
+			c.Add(context.Background(), 1)
+		}
+		rec.take()
+		cur.Store(j)
+		done.Store(0)
+		round.Add(1)
+		for n := 0; done.Load() != int64(sc.G); n++ {
+			if n&1023 == 1023 {
+				runtime.Gosched()
+			}
+		}
+		rd := roundJ{PShut: make([]int, len(sc.Kinds)), XShut: make([]int, len(sc.Kinds)), Count: 1}
+		calls, xcalls := rec.take()
+		for _, c := range calls {
+			if c.K == "KShutdown" {
+				rd.PShut[c.ID]++
+			}
+		}
+		for _, c := range xcalls {
+			if c.K == "KXShutdown" {
+				rd.XShut[c.ID]++
+			}
+		}
+		for g := 0; g < G; g++ {
+			if j.isShutdown[g] {
+				rd.ShutErrs = append(rd.ShutErrs, j.errs[g])
+			} else {
+				rd.FlushErrs = append(rd.FlushErrs, j.errs[g])
+			}
+		}
+		sort.Strings(rd.ShutErrs)
+		sort.Strings(rd.FlushErrs)
+		if !log {
+			for _, rdr := range readers {
+				var rm metricdata.ResourceMetrics
+				rd.CollectAfter = append(rd.CollectAfter, errClass(rdr.Collect(context.Background(), &rm)))
+			}
+		}
+		key, _ := json.Marshal(rd)
+		if m, ok := merged[string(key)]; ok {
+			m.Count++
+		} else {
+			merged[string(key)] = &rd
+			order = append(order, string(key))
+		}
+	}
+	stop.Store(true)
+	wg.Wait()
+	var res resultJ
+	for _, k := range order {
+		res.Rounds = append(res.Rounds, *merged[k])
+	}
+	return res
+}
+
 func childMain() {
 	var sc scenario
 	if err := json.NewDecoder(os.Stdin).Decode(&sc); err != nil {
@@ -538,6 +728,10 @@ func childMain() {
 			res = childLog(sc)
 		case "storm":
 			res = childStorm(sc)
+		case "lstorm":
+			res = childLMStorm(sc, true)
+		case "mstorm":
+			res = childLMStorm(sc, false)
 		}
 	}()
 	b, _ := json.Marshal(res)
@@ -626,6 +820,30 @@ func opCoq(kind string, o opJ) string {
 		return map[string]string{"trace": "TFlush", "metric": "MFlush", "log": "LFlush"}[kind] + fmt.Sprintf(" %v", o.B)
 	}
 	return map[string]string{"trace": "TShutdown", "metric": "MShutdown", "log": "LShutdown"}[kind] + fmt.Sprintf(" %v", o.B)
+}
+
+func intsCoq(xs []int) string {
+	var s []string
+	for _, x := range xs {
+		s = append(s, fmt.Sprint(x))
+	}
+	return "[" + strings.Join(s, ";") + "]"
+}
+
+func stormCoq(sc scenario, rd roundJ) string {
+	kinds := make([]string, len(sc.Kinds))
+	for i, k := range sc.Kinds {
+		kinds[i] = k
+		if strings.Contains(k, " ") {
+			kinds[i] = "(" + k + ")"
+		}
+	}
+	kl := "[" + strings.Join(kinds, "; ") + "]"
+	errs := func(e []string) string { return "[" + strings.Join(e, ";") + "]" }
+	if sc.Kind == "lstorm" {
+		return fmt.Sprintf("CStormL %s %s %s %s %s", kl, intsCoq(rd.PShut), intsCoq(rd.XShut), errs(rd.ShutErrs), errs(rd.FlushErrs))
+	}
+	return fmt.Sprintf("CStormM %s %s %s %s %s", kl, intsCoq(rd.XShut), errs(rd.ShutErrs), errs(rd.FlushErrs), errs(rd.CollectAfter))
 }
 
 func scenarioCoq(sc scenario, res *resultJ) string {
@@ -822,20 +1040,44 @@ func main() {
 		scs = append(scs, scenario{Kind: "storm", N: r.Range(1, 5), Extra: r.Range(0, 3), G: r.Range(2, 12), Seed: r.U64()})
 	}
 
+	logKinds := []string{"LSimple XStd", "LSimple XNil", "LBatch XStd", "LBatch XNil"}
+	for i := 0; i < o.Count(10, 60); i++ {
+		sc := scenario{Kind: "lstorm", N: o.Count(400, 2000), G: r.Range(3, 8), Seed: r.U64()}
+		for j := 0; j < r.Range(1, 3); j++ {
+			sc.Kinds = append(sc.Kinds, vgen.Pick(r, logKinds))
+		}
+		scs = append(scs, sc)
+	}
+	for i := 0; i < o.Count(10, 60); i++ {
+		sc := scenario{Kind: "mstorm", N: o.Count(400, 2000), G: r.Range(3, 8), Seed: r.U64()}
+		for j := 0; j < r.Range(1, 3); j++ {
+			sc.Kinds = append(sc.Kinds, vgen.Pick(r, []string{"RManual", "RPeriodic XStd", "RPeriodic XStd", "RPeriodic XNil"}))
+		}
+		scs = append(scs, sc)
+	}
+
 	// run the children, a few at a time
 	outs := make([]outcome, len(scs))
-	sem := make(chan struct{}, 6)
 	var wg sync.WaitGroup
-	for i := range scs {
-		wg.Add(1)
-		sem <- struct{}{}
-		go func(i int) {
-			defer wg.Done()
-			defer func() { <-sem }()
-			outs[i] = runChild(scs[i])
-		}(i)
+	pool := func(width int, pick func(scenario) bool) {
+		sem := make(chan struct{}, width)
+		for i := range scs {
+			if !pick(scs[i]) {
+				continue
+			}
+			wg.Add(1)
+			sem <- struct{}{}
+			go func(i int) {
+				defer wg.Done()
+				defer func() { <-sem }()
+				outs[i] = runChild(scs[i])
+			}(i)
+		}
+		wg.Wait()
 	}
-	wg.Wait()
+	spinning := func(sc scenario) bool { return sc.Kind == "lstorm" || sc.Kind == "mstorm" }
+	pool(6, func(sc scenario) bool { return !spinning(sc) })
+	pool(2, spinning) // these children spin on 3-8 cores each: two at a time
 
 	for i, sc := range scs {
 		oc := outs[i]
@@ -857,18 +1099,20 @@ func main() {
 		}
 		if oc.crashed {
 			desc["child_log"] = oc.log
-			nilPeriodic := false
-			for _, k := range sc.Kinds {
-				if k == "RPeriodic XNil" {
-					nilPeriodic = true
-				}
-			}
-			if sc.Kind == "metric" && nilPeriodic {
-				// judged in Coq: the model has the outcome Crash for this configuration (F-C15-4)
-				w.Add(scenarioCoq(sc, nil), desc, kind, true)
-				continue
-			}
 			w.Violation("child process running the sequence crashed or panicked", desc)
+			continue
+		}
+		if sc.Kind == "lstorm" || sc.Kind == "mstorm" {
+			total := 0
+			for _, rd := range oc.res.Rounds {
+				total += rd.Count
+				d := map[string]any{"scenario": sc, "round_outcome": rd, "rounds_with_this_outcome": rd.Count}
+				w.Add(stormCoq(sc, rd), d, kind, true)
+			}
+			if total != sc.N {
+				w.Violation("storm child returned an incomplete set of rounds", desc)
+			}
+			w.Tally(fmt.Sprintf("%s:rounds", sc.Kind))
 			continue
 		}
 		if sc.Kind != "storm" && len(oc.res.Obs) != len(sc.Ops) {
